@@ -2266,6 +2266,13 @@ ldb_write(ldb_t *db, ldb_batch_t *updates, const ldb_writeopt_t *options) {
 
       rc = ldb_writer_add_record(db->log, &contents);
 
+      if (rc != LDB_OK) {
+        /* A failed or partial append leaves the log (and the writer's idea
+           of its block offset) in the same indeterminate state as a failed
+           sync: records appended later could be unreadable. */
+        sync_error = 1;
+      }
+
       if (rc == LDB_OK && options->sync) {
         rc = ldb_wfile_sync(db->logfile);
 
